@@ -246,10 +246,14 @@ def check(plan, ctx):
     _equivalence(v, ctx)
     if n:
         w = ctx.call("astype(na_dtype)", lambda: v.astype(v.na_dtype))
-        w[0] = w.na_value
+        a, b = build.cells(np.asarray(w)), build.cells(np.asarray(v))
+        if not all(build.same_cell(x, y, numeric_loose=True) for x, y in zip(a, b)):
+            raise Violation("casting a vector to its na_dtype changed its values", dtype=str(v.dtype),
+                            na_dtype=str(v.na_dtype), got=a, want=b)
+        w[0] = v.na_value
         if not bool(np.asarray(w.is_na())[0]):
             raise Violation("a vector cast to its na_dtype cannot hold its na_value as missing", dtype=str(v.dtype),
-                            na_dtype=str(v.na_dtype), na_value=repr(v.na_value))
+                            na_dtype=str(v.na_dtype), na_value=repr(v.na_value), stored=repr(np.asarray(w)[0]))
     dn = ctx.call("drop_na", v.drop_na)
     want = [c for c, m in zip(build.cells(np.asarray(v)), exp_na) if not m]
     if build.cells(np.asarray(dn)) != want and not (len(want) == 0 and len(dn) == 0):
